@@ -214,7 +214,7 @@
     macro_rules! c16_kind {
         ($name:ident, $s:expr) => {
             #[kani::proof]
-            #[kani::unwind(4)]
+            #[kani::unwind(16)]
             fn $name() {
                 let r: u8 = kani::any();
                 kani::assume(r < 14); // @assume: harness domain: selector of the reply header kind
